@@ -62,6 +62,10 @@ func main() {
 	// declared in the same function, a selected field by another field selected in the same function
 	// (the compiler filters the ill-typed ones), ids W....; every 7th by position hash is emitted.
 	gen3 := len(os.Args) > 2 && os.Args[2] == "gen3"
+	g3res := 0 // which residue class of the sample (optional third argument)
+	if gen3 && len(os.Args) > 3 {
+		g3res, _ = strconv.Atoi(os.Args[3])
+	}
 	var files []string
 	filepath.Walk(root, func(p string, info os.FileInfo, err error) error {
 		if err != nil {
@@ -250,7 +254,7 @@ func main() {
 					for _, o := range vs {
 						if o != x.Name {
 							k++
-							if (off(x.Pos())+k)%7 == 0 {
+							if (off(x.Pos())+k)%7 == g3res%7 {
 								emit(off(x.Pos()), off(x.End()), o, "wrong-var "+x.Name+"->"+o)
 							}
 						}
@@ -262,7 +266,7 @@ func main() {
 					for _, o := range fs {
 						if o != x.Sel.Name {
 							k++
-							if (off(x.Sel.Pos())+k)%3 == 0 {
+							if (off(x.Sel.Pos())+k)%3 == g3res%3 {
 								emit(off(x.Sel.Pos()), off(x.Sel.End()), o, "wrong-field "+x.Sel.Name+"->"+o)
 							}
 						}
